@@ -671,6 +671,10 @@ struct PeerConnectionInner {
     rtp_transport: Mutex<Option<Arc<RtpTransport>>>,
     rtp_media_ice_transports: Mutex<HashMap<u64, IceTransport>>,
     rtp_media_transports: Mutex<HashMap<u64, Arc<RtpTransport>>>,
+    /// Serializes "pick the transport of a transceiver and attach it". In direct RTP mode
+    /// `start_dtls()` (connection task) and `set_remote_description()` (which creates the
+    /// per-section transports) attach transports to the same transceivers concurrently.
+    rtp_attach_lock: Mutex<()>,
     sctp_transport: Mutex<Option<Arc<SctpTransport>>>,
     data_channels: Arc<Mutex<Vec<std::sync::Weak<crate::transports::sctp::DataChannel>>>>,
     event_tx: mpsc::UnboundedSender<PeerConnectionEvent>,
@@ -794,6 +798,7 @@ impl PeerConnection {
             rtp_transport: Mutex::new(None),
             rtp_media_ice_transports: Mutex::new(HashMap::new()),
             rtp_media_transports: Mutex::new(HashMap::new()),
+            rtp_attach_lock: Mutex::new(()),
             sctp_transport: Mutex::new(None),
             data_channels: Arc::new(Mutex::new(Vec::new())),
             event_tx,
@@ -1034,6 +1039,29 @@ impl PeerConnection {
     }
 
     fn attach_rtp_transport_to_transceiver(
+        &self,
+        transceiver: &Arc<RtpTransceiver>,
+        transport: Arc<RtpTransport>,
+    ) {
+        let _attach = self.inner.rtp_attach_lock.lock();
+        self.attach_rtp_transport_to_transceiver_locked(transceiver, transport);
+    }
+
+    /// Attach the transceiver's own media transport if it has one, `default` otherwise.
+    /// The lookup and the attachment are one critical section: a media transport that
+    /// `set_remote_description()` inserts and attaches concurrently is either seen here, or
+    /// attached after this call returns - never replaced by a stale `default`.
+    fn attach_selected_rtp_transport(
+        &self,
+        transceiver: &Arc<RtpTransceiver>,
+        default: Arc<RtpTransport>,
+    ) {
+        let _attach = self.inner.rtp_attach_lock.lock();
+        let selected = self.rtp_transport_for_transceiver_or(transceiver, default);
+        self.attach_rtp_transport_to_transceiver_locked(transceiver, selected);
+    }
+
+    fn attach_rtp_transport_to_transceiver_locked(
         &self,
         transceiver: &Arc<RtpTransceiver>,
         transport: Arc<RtpTransport>,
@@ -2158,6 +2186,7 @@ impl PeerConnection {
         {
             let transceivers = self.inner.transceivers.lock();
             for t in transceivers.iter() {
+                let _attach = self.inner.rtp_attach_lock.lock();
                 let selected_transport =
                     self.rtp_transport_for_transceiver_or(t, rtp_transport.clone());
                 // Store transport reference for late senders
@@ -2204,14 +2233,12 @@ impl PeerConnection {
 
             let transceivers = self.inner.transceivers.lock();
             for t in transceivers.iter() {
-                let selected_transport =
-                    self.rtp_transport_for_transceiver_or(t, rtp_transport.clone());
                 trace!(
                     "start_dtls: transceiver kind={:?} mid={:?}",
                     t.kind(),
                     t.mid()
                 );
-                self.attach_rtp_transport_to_transceiver(t, selected_transport);
+                self.attach_selected_rtp_transport(t, rtp_transport.clone());
             }
             let pair_monitor = Self::create_pair_monitor(pair_rx.clone(), ice_conn_monitor.clone());
             return Ok(
